@@ -9,19 +9,28 @@ ENTRY = dict(
                   "c11_mgo_accepts_iff", "c11_mgo_never_crashes", "c11_indices_masks", "c11_cog_refuses_phase",
                   "c11_decode", "c11_members_are_members", "c11_rotation_signs", "c11_register", "c11_suffix",
                   "c11_measure_ok", "c11_meas_refuses", "c11_suffix_semantics", "c11_process_outcome", "c11_expectation",
-                  "c11_expectation_circuit", "c11_contract_inhabited", "c11_collection_reference_oracle", "c11_born_two_qubits",
-                  "c11_expectation_two_qubits", "c11_law_two_qubits_normalised", "c11_dummy", "c11_facts"],
+                  "c11_expectation_circuit", "c11_contract_inhabited", "c11_collection_reference_oracle",
+                  "c11_born_two_qubits_abstract_rotations", "c11_expectation_two_qubits_abstract_rotations",
+                  "c11_law_two_qubits_abstract_rotations_normalised", "c11_born_circuit_two_qubits", "c11_expectation_circuit_two_qubits",
+                  "c11_collection_expectation", "c11_register_low_bits", "c11_mask_is_support", "c11_dummy", "c11_facts"],
         allowed_axioms=[],
         facts=["value_error_sites"],
         harness="c11",
         level="proof",
-        level_text="Partial proof. EXTENSION: (i) the Born/Heisenberg hypothesis is discharged on two qubits: c11_born_two_qubits proves, symbolically "
-                   "in the 8 integer coordinates, that for EVERY non-zero two-qubit state vector with Gaussian-integer amplitudes and EVERY general "
-                   "observable (16 letter pairs incl. identity letters and the dummy) the outcome law computed from the state vector after the "
-                   "appended H/SX rotations satisfies the hypothesis, hence c11_expectation_two_qubits (decoded value = <psi|member|psi>/<psi|psi>) "
-                   "holds with no physical assumption; the state-vector specification is compared with qiskit's Statevector on every run (stream "
-                   "born2; Model/StateVec2.v, proved equal to the theorem's ev_st2/law_st2). For more than two qubits the hypothesis stays an "
-                   "assumption. (ii) c11_contract_inhabited / c11_collection_reference_oracle: a first-fit greedy reference oracle "
+        level_text="Partial proof. (i) The Born/Heisenberg hypothesis is discharged EXACTLY in this regime: two qubits (n = 2, not n = 1 or n > 2), "
+                   "pure states with Gaussian-integer (by scaling Gaussian-rational) amplitudes, circuit = subsystem (qubit_locations [0,1] or "
+                   "[1,0]), register at clbits 0..k-1, outcome words without QPD bits. c11_born_circuit_two_qubits / "
+                   "c11_expectation_circuit_two_qubits: the law is obtained by EXECUTING the instruction suffix returned by the measurement model "
+                   "on the state vector (gate ids interpreted as the H/SX matrices), symbolically in the 8 integer coordinates, for all 16 general "
+                   "observables; swapping H and SX in the suffix would falsify them. The *_abstract_rotations variants (c11_born_two_qubits_abstract_rotations "
+                   "etc.) build the law letter-wise from rotation_of with identity locations, NOT from the instruction list. Outside this regime "
+                   "(n != 2, mixed states e.g. after resets, circuits larger than the subsystem, QPD bits) the hypothesis stays an assumption "
+                   "(Section hypotheses of c11_expectation / c11_expectation_circuit) and the clause is covered by the physics / e2e / gce streams "
+                   "(testing). The state-vector specification is compared with qiskit's Statevector on every run (stream born2). "
+                   "c11_collection_expectation composes collection -> lookup -> group -> mask -> _process_outcome -> expectation of an INPUT observable "
+                   "(hypotheses: oracle contract, real Pauli letters, Born for the group's general observable, words without QPD bits); "
+                   "c11_register_low_bits: on a circuit without clbits the register occupies clbits 0..k-1 = the low k bits _process_outcome decodes. "
+                   "(ii) c11_contract_inhabited / c11_collection_reference_oracle: a first-fit greedy reference oracle "
                    "(Model/GroupingGreedy.v) satisfies the group_commuting/unique contract for every input of equal width, so the theorems "
                    "conditional on the contract are non-vacuous for every input and the collection built with it covers every observable "
                    "unconditionally; Qiskit's own grouping (rustworkx colouring) remains an oracle monitored at run time. Proved for all sizes (any number of qubits, members, groups; closed under the global context) about the "
@@ -48,11 +57,16 @@ ENTRY = dict(
         assumptions=[
             "Model/Grouping.v and Model/Measurement.v are hand-written models of the functions named above; tied to /repo by the C11 "
             "correspondence (vm_compute of the model on the inputs the implementation ran on) and the extracted ValueError site counts",
-            "for n = 2 qubits the Born/Heisenberg hypothesis is no longer an assumption (c11_born_two_qubits, all Gaussian-rational "
-            "states); it remains one for n > 2",
+            "PHYSICS hypothesis, discharged only for: n = 2, pure Gaussian-rational states, qubit_locations a permutation of the two "
+            "qubits, register at clbits 0..k-1, no QPD bits (c11_born_circuit_two_qubits). It remains an assumption for n != 2 (incl. n = 1), "
+            "mixed states, circuits larger than the subsystem, and words with QPD bits",
             "Born/Heisenberg hypothesis (Section Expectation): for local rotations U_q followed by Z-measurements, "
             "E[prod_{q in S} (-1)^{b_q}] = ev(tensor_{q in S} U_q^dagger Z U_q) for every sub-selection S of the measured qubits; "
-            "not proved in general, instantiated exactly on one two-qubit state for the general observables XY, ZX, YY",
+            "not proved in general (Section hypotheses Born / BornCircuit)",
+            "hypothesis kinds: Born/BornCircuit = physics; grouping_contract = oracle (Qiskit unique/group_commuting, monitored; inhabited by "
+            "the greedy reference oracle); valid_letters, NoDup locs, locs < nqc, register bits distinct = input preconditions (the last "
+            "established by c11_register / c11_register_low_bits); `collection ... = Ok` premises = success case (c11_total gives success "
+            "from the contract for phase-free input)",
             "group_commuting/unique contract: groups are non-empty, partition the unique observables, and are pairwise qubit-wise commuting "
             "(monitored on every case)",
             "gate matrices: H = [[1,1],[1,-1]]/sqrt2, SX = [[1+i,1-i],[1-i,1+i]]/2 (checked against qiskit Operator on every run)",
